@@ -42,6 +42,9 @@ type hbConf struct {
 }
 
 func c16heartbeats(rep *vh.Report, seed uint64, idx int, P time.Duration) (spacingBad bool, wayOff bool) {
+	if aborted() {
+		return
+	}
 	r := vh.Sub(seed, fmt.Sprintf("c16-hb-%d", idx))
 	k := 1 + r.Intn(4)
 	sysType, apType := 1+r.Intn(30), r.Intn(20)
@@ -121,7 +124,9 @@ func c16heartbeats(rep *vh.Report, seed uint64, idx int, P time.Duration) (spaci
 	}
 	time.Sleep(time.Duration(want-want/2)*P + P/2)
 	close(stop)
-	node.Close()
+	if !safeClose(rep, node) {
+		return
+	}
 	tEnd := time.Now()
 	<-cons.done
 	if late != nil {
@@ -238,7 +243,9 @@ func c16noHeartbeats(rep *vh.Report) {
 				}
 			}()
 			time.Sleep(250 * time.Millisecond)
-			node.Close()
+			if !safeClose(rep, node) {
+				return
+			}
 			n := tr.NWrites()
 			rep.Eval(1)
 			rep.Count("no_heartbeat_configs", 1)
@@ -262,6 +269,9 @@ type srcTuple struct {
 }
 
 func c16streamRequests(rep *vh.Report, seed uint64, idx int) {
+	if aborted() {
+		return
+	}
 	r := vh.Sub(seed, fmt.Sprintf("c16-sr-%d", idx))
 	k := 1 + r.Intn(4)
 	freq := 1 + r.Intn(50)
@@ -412,7 +422,9 @@ func c16streamRequests(rep *vh.Report, seed uint64, idx int) {
 		}
 	}
 	time.Sleep(5 * time.Millisecond)
-	node.Close()
+	if !safeClose(rep, node) {
+		return
+	}
 	<-cons.done
 
 	type tk struct {
@@ -532,7 +544,9 @@ func c16long(rep *vh.Report) {
 		tr.Feed(hbFrame(7, 7, 3, 0))
 		time.Sleep(500 * time.Millisecond)
 	}
-	node.Close()
+	if !safeClose(rep, node) {
+		return
+	}
 	var times []time.Duration
 	for _, w := range tr.Writes() {
 		times = append(times, time.Duration(w.T))
